@@ -40,6 +40,8 @@ class Offset(Native):
 def _zone_of(tz):
     if isinstance(tz, Zone):
         return tz
+    if isinstance(tz, Stub) and tz.name.startswith("datetime.timezone.utc"):
+        return UTC
     if isinstance(tz, Stub) and tz.name in ("datetime.timezone.utc", "datetime.UTC"):
         return UTC
     if tz is None:
@@ -47,25 +49,40 @@ def _zone_of(tz):
     raise AnalysisError(f"C18: zone expression {tz!r} outside the frame language")
 
 
-class ADT(Native):
-    """Abstract datetime denoting a fixed instant t."""
+class Delta(Native):
+    """An abstract timedelta (only its presence matters)."""
 
-    def __init__(self, zone=None, coefs=None):
+
+class ADT(Native):
+    """Abstract datetime denoting a fixed instant t (`inst` names the instant: the examined value or 'now')."""
+
+    def __init__(self, zone=None, coefs=None, inst="value", fold_ok=True):
         self.zone = zone  # Zone => aware; None => naive
         self.coefs = {k: v for k, v in (coefs or {}).items() if v}  # naive wall clock = t + sum(c * off(zone))
+        self.inst = inst
+        self.fold_ok = fold_ok  # False: produced by arithmetic on a naive value (fold is always 0 then)
 
     @property
     def tzinfo(self):
         return self.zone
 
     def astimezone(self, tz=None):
+        if tz is None:
+            # fixed-offset zone holding the local offset *at this instant*
+            z = Zone(f"LOCALFIXED@{self.inst}")
+            if self.zone is None and self.coefs == {"LOCAL": 1} and self.fold_ok:
+                return ADT(zone=z, inst=self.inst)
+            if self.zone is not None:
+                return ADT(zone=z, coefs=self.coefs, inst=self.inst)
         z = _zone_of(tz)
         if self.zone is None:
+            if not self.fold_ok:
+                return ADT(zone=z, coefs={"__fold_lost__": 1}, inst=self.inst)
             # a naive value is read as local time (fold honoured): exact iff its wall clock is t + off(LOCAL)
             if self.coefs != {"LOCAL": 1}:
-                return ADT(zone=z, coefs={"__shifted__": 1, **self.coefs, "LOCAL": self.coefs.get("LOCAL", 0) - 1})
-            return ADT(zone=z)
-        return ADT(zone=z, coefs=self.coefs)
+                return ADT(zone=z, coefs={"__shifted__": 1, **self.coefs, "LOCAL": self.coefs.get("LOCAL", 0) - 1}, inst=self.inst)
+            return ADT(zone=z, inst=self.inst)
+        return ADT(zone=z, coefs=self.coefs, inst=self.inst)
 
     def replace(self, **kw):
         if set(kw) != {"tzinfo"}:
@@ -73,19 +90,23 @@ class ADT(Native):
         tz = kw["tzinfo"]
         if tz is None:
             if self.zone is None:
-                return ADT(None, self.coefs)
+                return ADT(None, self.coefs, self.inst, self.fold_ok)
             c = dict(self.coefs)
             if self.zone is not UTC:
-                c[self.zone.name] = c.get(self.zone.name, 0) + 1
-            return ADT(None, c)
+                zn = "LOCAL" if self.zone.name == f"LOCALFIXED@{self.inst}" else self.zone.name
+                c[zn] = c.get(zn, 0) + 1
+            return ADT(None, c, self.inst)
         z = _zone_of(tz)
         if self.zone is None:
-            # wall clock kept, zone attached: instant moves unless the wall clock already is t + off(z)
+            # wall clock kept, zone attached: instant moves unless the wall clock already is t + off(z) at this instant
             c = dict(self.coefs)
             if z is not UTC:
-                c[z.name] = c.get(z.name, 0) - 1
-            return ADT(zone=z, coefs=c)
-        return ADT(zone=z, coefs=self.coefs)
+                zn = "LOCAL" if z.name == f"LOCALFIXED@{self.inst}" else z.name
+                c[zn] = c.get(zn, 0) - 1
+            if not self.fold_ok:
+                c["__fold_lost__"] = 1
+            return ADT(zone=z, coefs=c, inst=self.inst)
+        return ADT(zone=z, coefs=self.coefs, inst=self.inst)
 
     def utcoffset(self):
         if self.zone is None:
@@ -97,10 +118,14 @@ class ADT(Native):
             c = dict(self.coefs)
             for k, v in o.coefs.items():
                 c[k] = c.get(k, 0) - v
-            return ADT(self.zone, c)
+            return ADT(self.zone, c, self.inst, self.fold_ok)
+        if isinstance(o, Delta):
+            return ADT(self.zone, self.coefs, self.inst, fold_ok=self.zone is not None and self.fold_ok)
         raise AnalysisError("C18: datetime arithmetic outside the frame language")
 
     def __add__(self, o):
+        if isinstance(o, Delta):
+            return self.__sub__(o)
         if isinstance(o, Offset):
             return self.__sub__(-o)
         raise AnalysisError("C18: datetime arithmetic outside the frame language")
@@ -113,6 +138,8 @@ class ADT(Native):
 
     def describe(self):
         kind, sh = self.frame()
+        if not self.fold_ok and self.zone is None:
+            return "naive with fold lost (result of arithmetic on a naive value: always fold=0)"
         if kind == "aware":
             return "aware (instant preserved)" if not sh else f"aware but shifted by {dict(sh)}"
         if not sh:
@@ -120,6 +147,28 @@ class ADT(Native):
         if dict(sh) == {"LOCAL": 1}:
             return "naive local"
         return f"naive, wall clock = instant + {dict(sh)} x utcoffset"
+
+
+def _now(tz=None):
+    return ADT(None, {"LOCAL": 1}, inst="now") if tz is None else ADT(_zone_of(tz), inst="now")
+
+
+def _fromtimestamp(t, tz=None):
+    return ADT(None, {"LOCAL": 1}) if tz is None else ADT(_zone_of(tz))
+
+
+DT_EXT = {
+    "datetime.datetime.now": _now,
+    "datetime.datetime.fromtimestamp": _fromtimestamp,
+    "datetime.datetime.utcfromtimestamp": lambda t: ADT(None, {}),
+    "datetime.datetime.utcnow": lambda: ADT(None, {}, inst="now"),
+    "datetime.timedelta": lambda *a, **k: Delta(),
+    "datetime.timezone.utc": None,
+    "os.path.getmtime": lambda p: 1234.5,
+    "os.stat": lambda p: Obj(None, {"st_mtime": 1234.5, "st_mtime_ns": 1234500000000}),
+    "builtins.divmod": lambda a, b: divmod(a, b),
+    "builtins.int": int, "builtins.float": float,
+}
 
 
 def rule_normaliser_frames(ctx, rid):
@@ -131,7 +180,7 @@ def rule_normaliser_frames(ctx, rid):
     inputs = {"None": None, "naive-local": ADT(None, {"LOCAL": 1}), "aware-Z": ADT(Z), "aware-UTC": ADT(UTC), "aware-LOCAL": ADT(LOCAL)}
     outs = {}
     for name, v in inputs.items():
-        interp = Interp(m, ext={})
+        interp = Interp(m, ext=DT_EXT)
         try:
             outs[name] = interp.call_func(nf, None, [v], {})
         except AbsRaise as e:
@@ -174,7 +223,7 @@ def check(ctx):
     er = E.discover(m)
     rr = R.discover(m, er)
     nf = m.one_func("_to_naive_utc_time", "NORMALISER")
-    rule_normaliser_frames(ctx, "C18.Z2")
+    ctx.run(rule_normaliser_frames, "C18.Z2")
     # ---------------------------------------------------------------- Z1
     st = rr.stale
     ft = [p for p in st.params if "fresh" in p]
@@ -230,26 +279,35 @@ def check(ctx):
     ctx.floor("C18.Z1", "modified-time query sites", n_mt, 1)
     # ---------------------------------------------------------------- Z3
     n_ctor = 0
+    fs_mod = [mod for mod in m.modules.values() if mod.name == "uberjob.stores._file_store"]
+    helpers = [f for f in m.find_funcs("get_modified_time") if f.cls is None and f.module.name.startswith("uberjob.stores")]
+    for f in helpers:
+        n_ctor += 1
+        interp = Interp(m, ext=DT_EXT)
+        try:
+            out = interp.call_func(f, None, ["/some/path"], {})
+        except AbsRaise as e:
+            raise AnalysisError(f"C18.Z3: evaluating {f.qualname} raised {e.value!r}")
+        if isinstance(out, ADT):
+            kind, sh = out.frame()
+            ok = out.fold_ok and ((kind == "naive" and dict(sh) == {"LOCAL": 1}) or (kind == "aware" and not sh))
+            ctx.ob("C18.Z3", f"{f.short}/frame", ok, loc(f),
+                   f"bundled file stores report {out.describe()}" if ok else
+                   f"bundled file stores report a modified time that is {out.describe()}: the stale check reads naive values as local time "
+                   f"(fold honoured), so this value denotes another instant than the file's mtime")
+        else:
+            ctx.ob("C18.Z3", f"{f.short}/frame", False, loc(f), f"get_modified_time of an existing path evaluates to {out!r}")
     for f in m.funcs.values():
         if not f.module.name.startswith("uberjob.stores"):
             continue
         for c in f.own_calls():
-            names = ext_names(m, f, c)
-            for n in names:
+            for n in ext_names(m, f, c):
                 last = n.split(".")[-1]
-                if not n.startswith("datetime."):
-                    continue
-                if last in ("utcfromtimestamp", "utcnow"):
+                if n.startswith("datetime.") and last in ("utcfromtimestamp", "utcnow"):
                     n_ctor += 1
                     ctx.ob("C18.Z3", f"{f.short}/{last}", False, loc(f, c),
                            f"{last} yields naive UTC, which the stale check reads as local time", norm(c))
-                elif last == "fromtimestamp":
-                    n_ctor += 1
-                    tz = arg(c, 1, "tz")
-                    ok = True
-                    ctx.ob("C18.Z3", f"{f.short}/fromtimestamp", ok, loc(f, c),
-                           "naive local time" if tz is None else f"aware in {norm(tz)}", norm(c))
-    ctx.floor("C18.Z3", "datetime constructions in bundled stores", n_ctor, 1)
+    ctx.floor("C18.Z3", "modified-time constructions in bundled stores", n_ctor, 1)
     # user-supplied datetimes pass through unchanged
     for cname in ("LiteralSource", "ModifiedTimeSource"):
         cls = m.one_class(cname, "Z3")
